@@ -721,7 +721,7 @@ MANIFEST = {
             "check reports as finding C35-nts-pool-same-address on a tree without the repair. Tied to the real NtsPoolSpawner "
             "through real key exchanges against a scripted server on loopback, without and with SRV resolution "
             "(C35_nts_tie_runs_the_model, C35_nts_srv_tie_runs_the_model: the compared functions run the model of the theorem).",
-    "note": "Trusted: Coq kernel+vm_compute; hand-written model coq/Model/Pool.v (incl. the model of lookup() for the SRV queue); "
+    "note": "The NTS pool tie (real key exchanges on loopback) runs in the THOROUGH tier (or in the quick tier with VERIF_C35_NTS=1), not in the default quick tier. Trusted: Coq kernel+vm_compute; hand-written model coq/Model/Pool.v (incl. the model of lookup() for the SRV queue); "
             "harnesses harness/ntpd/c35.rs, harness/ntpd/c35n.rs + this driver; DNS answers as oracle (scripted via "
             "with_hardcoded_dns under cfg(test)); freshness of ClockId::new(). NTS pool: connection / key exchange / resolution "
             "outcomes are oracles of the model, produced in the tie by ntp-proto's real KeyExchangeServer with the repository's "
